@@ -50,7 +50,9 @@ type B struct {
 	last    time.Time
 
 	// one-shot behaviours
-	severOn       string // kind: cut the link instead of answering the next message of this kind
+	severOn       string // kind: cut the link instead of answering the next message(s) of this kind
+	severLeft     int    // how many more messages of that kind are cut (SeverOn: 1)
+	severSilent   bool   // the cut is silent (reads hang, writes vanish: only keepalive notices)
 	handshakeFail int    // cut this many upcoming handshakes instead of answering
 	refuse        map[int]bool
 	refusedOn     map[int]int // label -> generation on which its resume was refused
@@ -85,7 +87,15 @@ func New() *B {
 	return b
 }
 
-func (b *B) SeverOn(kind string)       { b.mu.Lock(); b.severOn = kind; b.mu.Unlock() }
+func (b *B) SeverOn(kind string)       { b.mu.Lock(); b.severOn, b.severLeft, b.severSilent = kind, 1, false; b.mu.Unlock() }
+
+// SeverOnN cuts the link instead of answering each of the next n messages of the kind (each on the
+// incarnation it arrives on); silent: the death is noticed only by keepalive.
+func (b *B) SeverOnN(kind string, n int, silent bool) {
+	b.mu.Lock()
+	b.severOn, b.severLeft, b.severSilent = kind, n, silent
+	b.mu.Unlock()
+}
 func (b *B) FailHandshakes(n int)      { b.mu.Lock(); b.handshakeFail = n; b.mu.Unlock() }
 func (b *B) RefuseResume(label int)    { b.mu.Lock(); b.refuse[label] = true; b.mu.Unlock() }
 func (b *B) NoAnswer(kind string, v bool) { b.mu.Lock(); b.noAnswer[kind] = v; b.mu.Unlock() }
@@ -167,7 +177,14 @@ func (b *B) rec(s *broker.Session, kind string, label int, alias uint32, tok str
 		k = "open"
 	}
 	if b.severOn != "" && b.severOn == k {
-		b.severOn = ""
+		b.severLeft--
+		if b.severLeft <= 0 {
+			b.severOn = ""
+		}
+		if b.severSilent {
+			s.Link.Sever(memtr.Silent) // the handler's own loud Sever afterwards does not undo the silence for reads
+			return false
+		}
 		return true
 	}
 	return false
@@ -453,4 +470,14 @@ func (b *B) SendToClient(m message.Message) error {
 		return fmt.Errorf("no session")
 	}
 	return s.Send(m)
+}
+
+// SendMetadata sends one downstream metadata item (a BaseTime) for the stream with the given label.
+func (b *B) SendMetadata(s *broker.Session, label int, n uint32) error {
+	_, alias, ok := b.StreamID(label)
+	if !ok {
+		return fmt.Errorf("unknown stream")
+	}
+	return s.Send(&message.DownstreamMetadata{RequestID: message.RequestID(1000 + 2*n + 1), StreamIDAlias: alias,
+		SourceNodeID: fmt.Sprintf("n%d", label), Metadata: &message.BaseTime{SessionID: "up", Name: fmt.Sprintf("q%d", n), BaseTime: time.Unix(1700000000, 0)}})
 }
